@@ -14,6 +14,10 @@ pub(crate) enum Waiter {
 
 impl Waiter {
   fn wake(self) {
+    #[cfg(excsn_fibre_verif)]
+    if let Waiter::Sync(thread) = &self {
+      fibre::verif::on_unpark(thread.id());
+    }
     match self {
       Waiter::Sync(thread) => thread.unpark(),
       Waiter::Async(waker) => waker.wake(),
